@@ -45,7 +45,7 @@ DEPTH_DOC = {
 }
 
 MUTS = {
-    "tree": ["annot_value_edit", "node_annot_value_edit", "edge_length", "node_label", "tree_label", "annot_add", "annot_drop", "annot_change", "node_annot_add", "comment",
+    "tree": ["annot_value_edit", "node_annot_value_edit", "edge_via_map", "edge_length", "node_label", "tree_label", "annot_add", "annot_drop", "annot_change", "node_annot_add", "comment",
              "encode", "attr", "reroot", "prune", "collapse", "add_child", "rotate", "relabel_taxon", "ns_add", "edge_annot_add", "is_rooted",
              "replace_taxon", "recopy", "recopy"],
     "treelist": ["annot_value_edit", "edge_length", "node_label", "list_label", "append", "remove", "annot_add", "reroot", "prune", "relabel_taxon", "ns_add",
@@ -126,6 +126,9 @@ class C12(Machine):
                 nd.annotations.add_bound_attribute("label")
             if cfg["encoded"]:
                 t.encode_bipartitions()
+                if cfg["extra_attr"]:
+                    t.bipartition_edge_map          # populate the lazily built lookup tables before the copy is taken
+                    t.split_bitmask_edge_map
             if cfg["extra_attr"]:
                 t.extra = {"k": [1, 2, 3]}
                 rawtree.raw_nodes(t)[-1].mark = ["m"]
@@ -314,6 +317,10 @@ class C12(Machine):
         return canon.dump(obj)
 
     def _disjoint(self, src, cp, ns, depth, ids_src, ids_cp):
+        if depth in ("deep", "ns", "extract"):
+            # reachability includes what the lazily filled lookup tables hand out
+            ids_src = canon.reachable_ids(src)
+            ids_cp = canon.reachable_ids(cp)
         common = ids_src & ids_cp
         if depth == "deep":
             if common:
@@ -327,7 +334,7 @@ class C12(Machine):
                 return ("other_namespace_copy_shares", "%d mutable objects are reachable from both (e.g. %s)" % (len(c), self._name_of(src, c)))
             return None
         if depth in ("ns", "extract"):
-            _, allowed = canon.dump(ns)
+            allowed = canon.reachable_ids(ns)
             extra = common - allowed
             if extra:
                 return ("shares_beyond_namespace", "%d mutable objects outside the namespace are reachable from both (e.g. %s)" % (
@@ -408,7 +415,15 @@ class C12(Machine):
         if kind in ("tree",):
             tree = obj
             nodes = rawtree.raw_nodes(tree)
-            if m == "edge_length":
+            if m == "edge_via_map":
+                if tree.bipartition_encoding is None:
+                    return False
+                mp = tree.split_bitmask_edge_map if k % 2 else tree.bipartition_edge_map
+                edges = list(mp.values())
+                if not edges:
+                    return False
+                edges[k2 % len(edges)].length = st["v"] if st["v"] is not None else 9.5
+            elif m == "edge_length":
                 nodes[k % len(nodes)].edge.length = st["v"]
             elif m == "node_label":
                 nodes[k % len(nodes)].label = st["s"]
